@@ -4,6 +4,7 @@ From Coq Require Import List ZArith Bool.
 From V Require Import Gen.Params Lib.Hex
      AmpToken.AmpModel AmpToken.AmpProofs AmpToken.TokenModel AmpToken.TokenProofs.
 From V Require SentPH.Model SentPH.ProofsScalars AmpToken.AmpFull.
+From V Require Import AmpToken.AmpReplay.
 From V Require Import AmpToken.StatelessModel AmpToken.StatelessProofs AmpToken.WireModel AmpToken.WireProofs.
 Import ListNotations.
 Open Scope Z_scope.
@@ -149,6 +150,39 @@ Example C14_close_regression :
    wireSent c = 6400 + 106).
 Proof. exact close_example_run. Qed.
 Print Assumptions C14_close_regression.
+
+(** Buffered undecryptable packets.  A datagram is credited when it arrives; packets of it whose keys are
+    missing are buffered and handled AGAIN when read keys appear.  [arrived] counts the bytes that really arrived
+    in datagrams.  As repaired by fixes/C14-undecryptable-replay-not-credited-again.patch ([qrun false]): everything
+    on the wire <= 3 x arrived + last gated datagram, for every history of datagrams (with any buffered parts),
+    key events (any subset staying undecryptable), and connection ops incl. close. *)
+Theorem C14_amplification_bound_replay : forall validated0 pto ops,
+  Forall wf_qop ops ->
+  let q := qrun false (qinit validated0 pto) ops in
+  validated (sph (fst (qcl q))) = false ->
+  wireSent (fst (qcl q)) <= 3 * arrived q + snd (qcl q).
+Proof. exact amplification_bound_replay. Qed.
+Print Assumptions C14_amplification_bound_replay.
+
+(** The behaviour before that repair ([qrun true]: the replay credits the packet's bytes again) violates the
+    property: witness = a 1200 B Initial, a 1200 B datagram of two buffered Handshake-looking packets, a key
+    event, ten send attempts: 10800 bytes sent for 2400 bytes arrived.  (Former finding
+    amplification/replay-credited-again; the monitor replays this shape on the code.) *)
+Theorem C14_replay_credited_again_refuted :
+  exists ops, Forall wf_qop ops /\
+    let q := qrun true (qinit false 200000000) ops in
+    validated (sph (fst (qcl q))) = false /\
+    3 * arrived q + snd (qcl q) < wireSent (fst (qcl q)).
+Proof. exact replay_credited_again_refuted. Qed.
+Print Assumptions C14_replay_credited_again_refuted.
+
+Example C14_replay_regression :
+  let q := qrun false (qinit false 200000000) replay_witness in
+  wireSent (fst (qcl q)) = 7200 /\ arrived q = 2400 /\ bytesReceived (sph (fst (qcl q))) = 2400 /\
+  (let q' := qrun true (qinit false 200000000) replay_witness in
+   wireSent (fst (qcl q')) = 10800 /\ arrived q' = 2400 /\ bytesReceived (sph (fst (qcl q'))) = 3600).
+Proof. exact replay_witness_repaired. Qed.
+Print Assumptions C14_replay_regression.
 
 (** The property at the wire.  [wire_ok] is the predicate an observer between client and server checks
     (every datagram towards an unvalidated address starts at or under 3x what arrived); it is what the
